@@ -21,6 +21,13 @@ def norm(resp):
     return resp
 
 
+def expand_sides(i):
+    """the harness writes the answer of a service handler that equals the translator's own as "=http" / "=grpc" """
+    if isinstance(i, dict) and any(isinstance(v, str) and v in ("=http", "=grpc") for v in i.values()):
+        return dict((k, i.get(v[1:]) if isinstance(v, str) and v in ("=http", "=grpc") else v) for k, v in i.items())
+    return i
+
+
 def run_pair(exe, cases):
     """implementation first, then the model / specification on the same cases with the implementation's answers"""
     impl = vlib.run_cases([exe], cases)
@@ -36,6 +43,11 @@ def run_pair(exe, cases):
     return impl, model, lcases
 
 
+def side_val(d, side):
+    v = d.get(side)
+    return d.get(v[1:]) if isinstance(v, str) and v in ("=http", "=grpc") else v
+
+
 def fill_svc(case, impl):
     """the Lean side of a services case: the state in which each pipeline left its request context (built from the
     scenario of the path; the error chain observed at the executor is used where there is one) + impl answers"""
@@ -48,7 +60,7 @@ def fill_svc(case, impl):
             # oracle, never taken from what the implementation did
             rq["ctx"] = special["ctx"]
             continue
-        sc = gen_errmap.SVC_PATHS.get(rq["path"])
+        sc = gen_errmap.request_scenario(rq)
         obs = impl[k].get("err") if ok and isinstance(impl[k], dict) else None
         if sc is None:
             rq["ctx"] = {"exec": "none", "err": None}
@@ -75,7 +87,7 @@ def expected_class_ok(case, impl):
     for rq, a in zip(case["reqs"], impl):
         sc = gen_errmap.svc_scenario(rq["path"], (rq.get("hdr") or {}).get("X-Mode"))
         if sc is None:
-            sc = gen_errmap.SVC_PATHS.get(rq["path"])
+            sc = gen_errmap.request_scenario(rq)
         resp = a.get("resp", {}) if isinstance(a, dict) else {}
         if sc is None or sc["cls"] is None:
             if resp.get("out") != "ok":
@@ -92,6 +104,20 @@ def expected_class_ok(case, impl):
         if resp.get("status") != want:
             bad.append((rq, resp, f"status {resp.get('status')} instead of {want} ({sc['cls']})"))
     return bad
+
+
+# the handlers of the services around the translators (in-process): failure returned by the rule executor / by Finalize
+SERVICE_SIDES = {"dec": "decision service handler, failure returned by the rule executor",
+                 "prx": "proxy service handler, failure returned by the rule executor",
+                 "env": "Envoy gRPC handler behind the interceptor, failure returned by the rule executor",
+                 "decfin": "decision service handler, failure returned by Finalize",
+                 "prxfin": "proxy service handler, failure returned by Finalize",
+                 "envfin": "Envoy gRPC handler behind the interceptor, failure returned by Finalize"}
+
+
+def side_name(side, rctx):
+    name = {"http": "HTTP error handler", "grpc": "gRPC error interceptor"}.get(side) or SERVICE_SIDES[side]
+    return f"{name} (context of the request: {rctx}):"
 
 
 def hdr(resp, name):
@@ -131,6 +157,8 @@ def shrink_handler(case, fails, budget=150):
                 cands.append(dict(cur, err=s))
         if cur.get("accept") is not None:
             cands.append(dict(cur, accept=None, acc={"k": "absent"}))
+        if cur.get("rctx", "live") != "live":
+            cands.append(dict((k, v) for k, v in cur.items() if k != "rctx"))
         for k, v in cur["cfg"]["ov"].items():
             if v != 0:
                 cands.append(dict(cur, cfg=dict(cur["cfg"], ov=dict(cur["cfg"]["ov"], **{k: 0}))))
@@ -142,7 +170,8 @@ def shrink_handler(case, fails, budget=150):
             if n > budget:
                 break
             if fails(cand):
-                cur = cand
+                # the note of a corpus case describes the unshrunk case
+                cur = dict((k, v) for k, v in cand.items() if k != "_note")
                 progress = True
                 break
     return cur
@@ -174,30 +203,42 @@ def verdict(case, i, m):
     if case["op"] == "handler":
         if not isinstance(i, dict) or "http" not in i:
             return ("impl-crash", f"harness gave no answer: {str(i)[:300]}")
-        for side in ("http", "grpc"):
+        rctx = case.get("rctx", "live")
+        sides = ["http", "grpc"] + [sd for sd in SERVICE_SIDES if sd in i and sd in res]
+        for side in sides:
             if isinstance(spec, dict) and spec.get(side) is not True:
-                return ("impl-vs-spec", f"{side} answer {json.dumps(i[side])} is rejected by the specification "
-                                        f"({spec.get(side)}); the proved model answers {json.dumps(res[side])}")
+                return ("impl-vs-spec", f"{side_name(side, rctx)} answer {json.dumps(side_val(i, side))} is rejected "
+                                        f"by the specification ({spec.get(side)}); the proved model answers "
+                                        f"{json.dumps(side_val(res, side))}")
         if isinstance(spec, dict) and spec.get("same") is not True:
             return ("impl-vs-spec", f"the HTTP handler answers {json.dumps(i['http'])}, the Envoy gRPC interceptor "
                                     f"{json.dumps(i['grpc'])}: not the same status / Location / challenge")
-        for side in ("http", "grpc"):
-            if vlib.canon(norm(i[side])) != vlib.canon(norm(res[side])):
-                return ("impl-vs-model", f"{side} answer {json.dumps(i[side])} differs from the model's "
-                                         f"{json.dumps(res[side])}")
+        for side in sides:
+            if side in SERVICE_SIDES and isinstance(i[side], str) and i[side] == res[side]:
+                continue  # both equal to the translator's own answer, which is compared on its own
+            a, b = side_val(i, side), side_val(res, side)
+            if vlib.canon(norm(a)) != vlib.canon(norm(b)):
+                return ("impl-vs-model", f"{side_name(side, rctx)} answer {json.dumps(a)} differs from the "
+                                         f"model's {json.dumps(b)}")
         return None
     if case["op"] == "svc":
         if not isinstance(i, list) or len(i) != len(case["reqs"]):
             return ("impl-crash", f"services gave no answers: {str(i)[:400]}")
+        def who(rq, a):
+            if not rq.get("hc"):
+                return f"{rq['svc']} {rq['path']}"
+            return (f"{rq['svc']} {rq['path']} (client half-closed its connection and reads the answer; context of "
+                    f"the request when the pipeline returned: {a.get('rctx') if isinstance(a, dict) else '?'})")
         for k, (rq, a) in enumerate(zip(case["reqs"], i)):
             if isinstance(spec, list) and k < len(spec) and spec[k] is not True:
-                return ("impl-vs-spec", f"{rq['svc']} {rq['path']} answers {json.dumps(a.get('resp'))}, rejected by the "
+                return ("impl-vs-spec", f"{who(rq, a)} answers {json.dumps(a.get('resp'))}, rejected by the "
                                         f"specification; the proved model answers {json.dumps(res[k])}")
         for rq, resp, why in expected_class_ok(case, i):
-            return ("impl-vs-spec", f"{rq['svc']} {rq['path']}: {why}; answer {json.dumps(resp)}")
+            a = i[case["reqs"].index(rq)]
+            return ("impl-vs-spec", f"{who(rq, a)}: {why}; answer {json.dumps(resp)}")
         for k, (rq, a) in enumerate(zip(case["reqs"], i)):
             if vlib.canon(norm(a.get("resp"))) != vlib.canon(norm(res[k])):
-                return ("impl-vs-model", f"{rq['svc']} {rq['path']} answers {json.dumps(a.get('resp'))}, the model "
+                return ("impl-vs-model", f"{who(rq, a)} answers {json.dumps(a.get('resp'))}, the model "
                                          f"{json.dumps(res[k])}")
         return None
     if case["op"] == "cfgkeys":
@@ -268,12 +309,21 @@ def run(R):
     s_corpus = [c for c in corpus if c["op"] == "svc"]
 
     # ---- stream 1: the two translators in isolation
-    hcases = h_corpus + gen_errmap.pair_cases() + gen_errmap.override_cases()
+    fixed = gen_errmap.pair_cases() + gen_errmap.override_cases() + gen_errmap.ctx_cases()
+    hcases = h_corpus + fixed
     n_random = 6000 if quick else 400000
-    hcases += [gen_errmap.gen_handler_case(R.rng) for _ in range(n_random)]
+    # quick: every case also through the six service-handler sides; thorough: every fourth of the random ones
+    hcases += [gen_errmap.gen_handler_case(R.rng, service_sides=(quick or k % 4 == 0)) for k in range(n_random)]
     if not quick:
         for e in gen_errmap.small_scope_errs(2):
             hcases.append(gen_errmap.handler_case(gen_errmap.PLAIN_CFG, None, {"k": "absent"}, e))
+        # the same small scope with a context error as cause, request context cancelled
+        for e in gen_errmap.small_scope_errs(1):
+            for c in gen_errmap.CTX_ERRS:
+                hcases.append(gen_errmap.handler_case(
+                    gen_errmap.PLAIN_CFG, None, {"k": "absent"},
+                    {"t": "chain", "es": [e, {"t": "wrap", "e": gen_errmap.ctxdone(c), "v": 2}], "v": 0},
+                    "cancelled" if c == "canceled" else "deadline"))
     himpl, hmodel, _ = run_pair(exe, hcases)
 
     # ---- stream 1b: redirect error handlers created by the real mechanism from configuration
@@ -307,19 +357,33 @@ def run(R):
     for c, m in zip(hcases, hmodel):
         st = m.get("stats", {}) if isinstance(m, dict) else {}
         for k in ("class", "depth", "classes", "accept", "httpBody", "grpcBody", "verbose", "cfgValid", "cfgNoSuccess",
-                  "redirectsValid"):
+                  "redirectsValid", "rctx", "ctxLeaf"):
             if k in st:
                 stats[k][str(st[k])] += 1
         stats["leaves"][str(min(st.get("leaves", 0), 8))] += 1
+        if st.get("ctxLeaf") and st.get("rctx", "live") != "live":
+            stats["ctxLeaf_and_request_context_done_by_class"][str(st.get("class"))] += 1
         if st.get("mixed"):
             nontriv.add(vlib.case_hash({"e": c["err"], "c": c["cfg"], "a": c["acc"]}))
     svc_counts = collections.Counter()
     svc_status = collections.Counter()
     cel_outcomes = collections.Counter()
     redirect_codes = collections.Counter()
+    halfclose = collections.Counter()
+    halfclose_ms = [0]
     for c, i in zip(scases, simpl):
         if isinstance(i, list):
             for rq, a in zip(c["reqs"], i):
+                if rq.get("hc"):
+                    halfclose_ms.append(a.get("ms") or 0)
+                    kind = ("scripted wait" if rq.get("werr") else "real mechanism waiting"
+                            if rq["path"] in gen_errmap.HANG_PATHS else "no waiting")
+                    halfclose[f"{rq['svc']}, {kind}, request context at the end of the pipeline: {a.get('rctx')}, "
+                              f"status {(a.get('resp') or {}).get('status')}"] += 1
+                if rq["path"].startswith("/ctxwait/"):
+                    svc_counts[rq["svc"] + " /ctxwait/*"] += 1
+                    svc_status[str((a.get("resp") or {}).get("status"))] += 1
+                    continue
                 svc_counts[rq["svc"] + " " + rq["path"]] += 1
                 svc_status[str((a.get("resp") or {}).get("status"))] += 1
                 sc = gen_errmap.svc_scenario(rq["path"], (rq.get("hdr") or {}).get("X-Mode"))
@@ -344,11 +408,24 @@ def run(R):
                 "plus 6 paths with real CEL authorizers / `if` conditions / error handler conditions evaluated for "
                 "requests on which they are true, false or fail at runtime (missing map key, index out of range, "
                 "division by zero, missing subject attribute), plus one redirect error handler per status code in "
-                "{300,301,302,303,307,308} and two non-3xx codes per stack; mechanism stream: redirect error handlers "
+                "{300,301,302,303,307,308} and two non-3xx codes per stack, plus (decision and proxy) a client which "
+                "half-closes its TCP connection after the request and reads the answer, while a real mechanism (remote "
+                "authorizer, generic authenticator, the proxy's forwarding) or a scripted step (real "
+                "endpoint.SendRequest / wait for ctx.AppContext()) waits on a server that never answers and then fails "
+                "with a communication / timeout / authentication / authorization / ... error caused by "
+                "context.Canceled / DeadlineExceeded; handler stream additionally: every case through the real "
+                "service.NewHandler(...).ServeHTTP (decision / proxy request contexts) and Handler.Check behind the "
+                "interceptor, with the context of the request live, cancelled or past its deadline, and "
+                "context.Canceled / DeadlineExceeded as leaves; mechanism stream: redirect error handlers "
                 "created by the real factory from configuration with 26 codes (unset, 3xx, 2xx, 4xx, 5xx, out of "
                 "range, negative)",
         "handler_cases": len(hcases), "handler_random": n_random, "pair_cases": len(gen_errmap.pair_cases()),
-        "override_cases": len(gen_errmap.override_cases()),
+        "override_cases": len(gen_errmap.override_cases()), "context_cases": len(gen_errmap.ctx_cases()),
+        "handler_sides_per_case": "http, grpc (translators) + dec, prx, env, decfin, prxfin, envfin (service "
+                                  "handlers around them, failure from the executor / from Finalize)",
+        "handler_cases_through_service_handlers": sum(1 for c in hcases if not c.get("translators_only")),
+        "service_halfclose_requests": dict(sorted(halfclose.items())),
+        "service_halfclose_slowest_ms": max(halfclose_ms),
         "service_stacks": len(scases), "service_requests": n_svc_req,
         "service_requests_by_path": dict(sorted(svc_counts.items())),
         "service_statuses": dict(sorted(svc_status.items())),
@@ -357,7 +434,7 @@ def run(R):
         "mechanism_cases": len(mcases),
         "cfgkeys_cases": len(ccases), "corpus_cases": len(corpus),
         "distribution": dict((k, dict(sorted(v.items()))) for k, v in sorted(stats.items())),
-        "samples": [hcases[len(h_corpus) + len(gen_errmap.pair_cases()) + len(gen_errmap.override_cases())],
+        "samples": [hcases[len(h_corpus) + len(fixed)],
                     dict(scases[-1], reqs=scases[-1]["reqs"][:3])],
         "probed_facts": facts if facts is not None else "probing failed: " + str(tie_error),
         "probe_cases": len(gen_errmap.probe_cases()),
@@ -377,6 +454,12 @@ def run(R):
         "runtime for a request is computed by the generator's oracle (cel_map / cel_idx / cel_div), the model starts "
         "from that outcome",
         "Accept headers reach the model in parsed form; the rendering of the generator is trusted",
+        "the context of the request is modelled by its state at the moment the failure reaches the handler (live / "
+        "cancelled / deadline exceeded); WHEN net/http cancels it (read EOF incl. a half-closed connection, client "
+        "gone, HTTP/2 stream reset) is net/http's business and exercised by the services stream with a real "
+        "half-closing TCP client only; a cancelled Envoy RPC has no response to observe (grpc-go answers the caller "
+        "itself), the Envoy service is covered in-process (Handler.Check behind the interceptor with a cancelled / "
+        "expired context)",
     ]
 
     # ---- verdicts
@@ -394,7 +477,8 @@ def run(R):
         what = {"impl-vs-spec": "the answer to a failure violates the property: ",
                 "impl-vs-model": "the implementation no longer behaves like the proved model: ",
                 "impl-crash": "the implementation side crashed: ", "driver": "model driver: "}[v2[0]] + v2[1]
-        R.violation(what, {"case": sc, "impl": si[0], "model": vlib.res_of(sm[0]), "kind": v2[0]},
+        R.violation(what, {"case": sc, "impl": expand_sides(si[0]), "model": expand_sides(vlib.res_of(sm[0])),
+                           "kind": v2[0]},
                     no_input=(v2[0] in ("impl-vs-model", "driver")))
     if tie_error:
         R.violation("the behaviour of the error translators no longer fits the shape of the proved model (probes of "
@@ -411,16 +495,17 @@ def replay(R, path):
     with open(path) as fh:
         p = json.load(fh)
     exe = vlib.step_harness(R)
-    c = p["case"]
+    c = p["case"] if "case" in p else p  # a replay file, or a bare case of corpus/C12
     if "tmp" in c:
         c["tmp"] = R.tmp
     impl, model, _ = run_pair(exe, [c])
-    print("impl :", json.dumps(impl[0]))
-    print("model:", json.dumps(vlib.res_of(model[0])))
+    print("impl :", json.dumps(expand_sides(impl[0])))
+    print("model:", json.dumps(expand_sides(vlib.res_of(model[0]))))
     if isinstance(model[0], dict) and "spec" in model[0]:
         print("spec :", json.dumps(model[0]["spec"]))
     R.coverage.update({"obligations": 1, "discharged": 1, "checker_cmd": "replay", "trusted_base": []})
     v = verdict(c, impl[0], model[0])
     if v is not None:
-        R.violation("replay still fails: " + v[1], {"case": c, "impl": impl[0], "model": vlib.res_of(model[0])},
+        R.violation("replay still fails: " + v[1], {"case": c, "impl": expand_sides(impl[0]),
+                                                    "model": expand_sides(vlib.res_of(model[0]))},
                     no_input=(v[0] == "impl-vs-model"))
